@@ -64,6 +64,7 @@ func ReadFile(r io.Reader) (File, []string, error) {
 				if err := expectAnyOfNext(tr, tokenKindCloseSquare); err != nil {
 					return f, warnings, err
 				}
+				optNewline(tr)
 			}
 			continue
 		case tokenKindEnum:
